@@ -28,8 +28,17 @@ one non-numeric cell turns the whole column into text and `np.isnan` raises on t
 non-missing cell).  `inf` / `-inf` are float literals: a PEP of +inf never enters the result
 (`inf >= d.get(p, [inf])[0]`); a PEP of −inf would be stored, which `PepInfo.pep : Rat` cannot hold —
 `ingestChecked` refuses it as `negInfPep` (outside the model, never generated).
+
+Digests of non-specific searches (`--enzyme no_enzyme` / `--digestion none`, `use_hash_key`): the object handed to
+`digest.get_proteins` is then the pair (6-residue prefix -> proteins, protein -> sequence).  `Digest` is
+either kind of object, `Digest.lookup` is `digest.get_proteins` on it (`hashLookup`: the proteins listed
+under the prefix whose stored sequence contains the peptide, `sorted`), and `ingestFilesCheckedD` is
+ingestion over a list of such objects (section "digests of non-specific searches" below; the functions
+over plain dicts above are untouched and are the special case `Digest.dict`, `Props/C10.lean`
+`digest_dicts_agree`).  The pair as the code BUILDS it is `C09.fromParams` (Model/C09.lean).
 -/
 import PgFdr.Model.Basic
+import PgFdr.Model.C09
 import PgFdr.Generated.Methods
 
 namespace PgFdr.C10
@@ -372,6 +381,142 @@ def ingestChecked (T : Transforms) (mode : Mode) (pairs : List (DMap × List Raw
 def ingestFilesChecked (T : Transforms) (mode : Mode) (maps : List DMap) (files : List (List RawRow)) :
     Except IngestErr (List PepInfo) :=
   ingestChecked T mode (pairUp mode.remap maps files)
+
+/-! ## digests of non-specific searches (`use_hash_key`): the (prefix index, sequences) pair
+
+`digest.get_peptide_to_protein_map(..., use_hash_key=True)` returns `(peptide_to_protein_map,
+protein_to_seq_map)`: the first dict is keyed by `peptide[:6]`, the second holds every database sequence
+(targets and generated decoys).  `digest.get_proteins` recognises the pair (`isinstance(x, tuple)`) and
+answers
+
+    hash_key = peptide[:6]; proteins = []
+    if hash_key in x[0]:
+        for protein in x[0][hash_key]:
+            if peptide in x[1][protein]: proteins.append(protein)
+        proteins = sorted(proteins)
+    return proteins
+
+The mapper of `parsers/psm.py` does not care which kind of object it holds: it calls `digest.get_proteins`
+and skips the row when the answer is empty.  Everything below is therefore the ingestion of the first part
+of this file with the lookup as a parameter. -/
+
+/-- what `digest.get_proteins` may be handed: a dict `peptide → proteins`, or the pair of a non-specific
+    digest (`idx`: `peptide[:6] → proteins` in the order the records were read; `seqs`: `protein → sequence`;
+    strings as character lists, as in `Model/C09.lean` which models how the pair is built) -/
+inductive Digest where
+  | dict (m : DMap)
+  | hashed (idx : C09.PMap) (seqs : C09.SeqMap)
+deriving Repr, DecidableEq, Inhabited
+
+/-- `digest.get_proteins` on the pair: the proteins listed under the peptide's 6-residue prefix whose stored
+    sequence contains the peptide as a substring (`C09.confirm`), `sorted`.  (A protein listed in the index
+    without a sequence is a `KeyError` in the code; the builder stores the sequence of every record it
+    indexes, `Digest.wf`; the driver refuses other pairs.) -/
+def hashLookup (idx : C09.PMap) (seqs : C09.SeqMap) (q : String) : List String :=
+  match C09.confirm seqs q.toList (C09.get idx (q.toList.take 6)) with
+  | .ok l => (C09.sortStrs l).map String.ofList
+  | .error _ => []
+
+/-- `digest.get_proteins(digest, peptide)` -/
+def Digest.lookup : Digest → String → List String
+  | .dict m, q => digestLookup m q
+  | .hashed idx seqs, q => hashLookup idx seqs q
+
+/-- every protein the index lists has a sequence (what `get_peptide_to_protein_map` guarantees:
+    `protein_to_seq_map[protein] = seq` precedes the digestion of the record) -/
+def Digest.wf : Digest → Bool
+  | .dict _ => true
+  | .hashed idx seqs => idx.all (fun kv => kv.2.all (fun p => (C09.lookupSeq seqs p).isSome))
+
+/-- `sourceProteins` with the lookup as a parameter -/
+def sourceProteinsBy (remap : Bool) (look : String → List String) (modPep : String)
+    (fileProteins : List String) : List String :=
+  if remap then look (removeMods modPep) else fileProteins
+
+/-- `mapProteins` with the lookup as a parameter: `none` for a peptide the digest does not know -/
+def mapProteinsBy (remap : Bool) (look : String → List String) (modPep : String)
+    (fileProteins : List String) : Option (List String) :=
+  if remap ∧ (sourceProteinsBy remap look modPep fileProteins).isEmpty then none
+  else some (removeDecoyProteinsFromTargetPeptides (sourceProteinsBy remap look modPep fileProteins))
+
+/-- `rowPsm` with the lookup as a parameter -/
+def rowPsmBy (T : Transforms) (mode : Mode) (look : String → List String) (flank : Bool) (r : RawRow) :
+    Option Psm :=
+  match mapProteinsBy mode.remap look (rowPeptide mode.format flank r) (rowProteinsOf mode r) with
+  | none => none
+  | some ps =>
+    if ps.isEmpty then none
+    else some { modPep := rowPeptide mode.format flank r, score := rowScore T mode.format r, prots := ps }
+
+def filePsmsBy (T : Transforms) (mode : Mode) (look : String → List String) (rows : List RawRow) : List Psm :=
+  rows.filterMap (rowPsmBy T mode look (flankOf mode.format rows))
+
+def rowRaisesBy (T : Transforms) (mode : Mode) (look : String → List String) (flank : Bool) (r : RawRow) : Bool :=
+  match mode.format with
+  | .maxquant => floatRaises .maxquant r.cell && (rowPsmBy T mode look flank r).isSome
+  | .diann => false
+  | f => floatRaises f r.cell
+
+def fileRaisesBy (T : Transforms) (mode : Mode) (look : String → List String) (rows : List RawRow) : Bool :=
+  match mode.format with
+  | .diann =>
+    rows.any (fun r => r.cell = .junk) &&
+      rows.any (fun r => (rowPsmBy T mode look false r).isSome && !isMissing r)
+  | _ => rows.any (rowRaisesBy T mode look (flankOf mode.format rows))
+
+def rowNegInfBy (T : Transforms) (mode : Mode) (look : String → List String) (flank : Bool) (r : RawRow) : Bool :=
+  (rowPsmBy T mode look flank r).isSome && transform T mode.format (cellVal r) = .negInf
+
+/-- PSM stream of `parse_evidence_file_multiple` over files paired with digests of either kind -/
+def allPsmsD (T : Transforms) (mode : Mode) (pairs : List (Digest × List RawRow)) : List Psm :=
+  pairs.flatMap (fun p => filePsmsBy T mode p.1.lookup p.2)
+
+def ingestPairsD (T : Transforms) (mode : Mode) (pairs : List (Digest × List RawRow)) : List PepInfo :=
+  parse (allPsmsD T mode pairs)
+
+/-- `ingestChecked` over digests of either kind -/
+def ingestCheckedD (T : Transforms) (mode : Mode) (pairs : List (Digest × List RawRow)) :
+    Except IngestErr (List PepInfo) :=
+  if pairs.any (fun p => fileRaisesBy T mode p.1.lookup p.2) then .error .badScoreCell
+  else if pairs.any (fun p => p.2.any (rowNegInfBy T mode p.1.lookup (flankOf mode.format p.2))) then
+    .error .negInfPep
+  else .ok (ingestPairsD T mode pairs)
+
+/-- `pairUp` over digests of either kind (`[None]` without remapping is the empty dict: never consulted) -/
+def pairUpD (remap : Bool) (maps : List Digest) (files : List (List RawRow)) : List (Digest × List RawRow) :=
+  let maps1 := if remap then maps else [.dict []]
+  let maps2 := if maps1.length = 1 then List.replicate files.length (maps1.headD (.dict [])) else maps1
+  maps2.zip files
+
+/-- `parsers.evidence.parse_evidence_files` with a list of digests of either kind, refusals included (what
+    the driver op `ingest` runs as soon as one of the maps is a (prefix index, sequences) pair) -/
+def ingestFilesCheckedD (T : Transforms) (mode : Mode) (maps : List Digest) (files : List (List RawRow)) :
+    Except IngestErr (List PepInfo) :=
+  ingestCheckedD T mode (pairUpD mode.remap maps files)
+
+/-! ### the dict a digest amounts to on a given file
+
+Ingestion asks a digest only about the stripped peptides of the rows it reads.  `Digest.tabulate` writes
+the answers to exactly these questions into a dict; ingestion with the digest IS ingestion with that dict
+(`Props/C10.lean`, `digest_ingest_is_dict_ingest`), which carries every theorem about dict digests over to
+the pair of a non-specific search. -/
+
+/-- the dict `q ↦ look q` for the listed peptides -/
+def tab (look : String → List String) (qs : List String) : DMap := qs.map (fun q => (q, look q))
+
+/-- the stripped peptides a file can ask its digest about (either flank decision) -/
+def queries (mode : Mode) (rows : List RawRow) : List String :=
+  rows.flatMap (fun r =>
+    [removeMods (rowPeptide mode.format true r), removeMods (rowPeptide mode.format false r)])
+
+def Digest.tabulate (d : Digest) (mode : Mode) (rows : List RawRow) : DMap := tab d.lookup (queries mode rows)
+
+/-- every file with the dict its digest amounts to on it -/
+def dictPairs (mode : Mode) (pairs : List (Digest × List RawRow)) : List (DMap × List RawRow) :=
+  pairs.map (fun p => (p.1.tabulate mode p.2, p.2))
+
+/-- Python `pat in s` on strings -/
+def isSubstr (pat s : String) : Bool := containsSub pat.toList s.toList
 
 /-! ## which mode a shipped method selects (scoring_strategy.ProteinScoringStrategy.__init__) -/
 
